@@ -458,7 +458,7 @@ pub fn run(tier: Tier) -> i32 {
         json!("every buffer passed to TxToken::consume in (a) all tcp2 executions with <= k deviations per configuration, (b) the full product medium x MTU x checksum-capability set x scenario x IP version x variant of scripted single-interface scenarios, (c) one fresh many-socket world per seed / truncation / single-byte mutant of the C03 catalogue, (d) every event sequence up to the BFS depth on 6 interface configurations, is validated by the independent EgressMonitor. states = scenario runs + distinct tcp2 states + distinct BFS states + injections that elicited frames; transitions = polls + tcp2 events + BFS transitions + injected frames; evaluations = frames validated; distinct_nontrivial = distinct frame shapes (protocol class + length class + flags/options)"),
     );
     rep.assumptions.push("MTU sets: IPv4 {68, 69, 576, 1500}, IPv6 {1280, 1281, 1500} (IP MTU; Ethernet device MTU = IP MTU + 14), IEEE 802.15.4 device MTU {125, 127}; IPv6 scenarios are not run below 1280 (outside the quantified domain)".into());
-    rep.assumptions.push("checksum capability sets: default, each of ipv4/udp/tcp/icmpv4/icmpv6 with tx off (Checksum::Rx) one at a time, all five off; a checksum is only asserted when smoltcp is the one computing it; IGMP has no capability and is always asserted".into());
+    rep.assumptions.push("checksum capability sets: default, each of ipv4/udp/tcp/icmpv4/icmpv6 with tx off (Checksum::Rx) one at a time, all five tx off, all five rx off (Checksum::Tx), all five off both ways (Checksum::None); a checksum is only asserted when smoltcp is the one computing it; IGMP has no capability and is always asserted".into());
     rep.assumptions.push("own addresses at emission time = union of Interface::ip_addrs() before and after the poll that emitted the frame; frames whose (src, dst, protocol) equals a packet the harness pushed through a raw socket are exempt from the source rule only".into());
     rep.assumptions.push("tcp2: k<=2 (quick) / k<=3 (thorough) deviations (drop / duplicate / reorder / timer-first / reader stall); event sequences: BFS to depth 4 (quick) / 6 (thorough) over 13 events; catalogue: seeds + truncations + boundary-value (quick) / all-value (thorough) single-byte mutants of the first 64 (quick) / 96 (thorough) octets, raw and with checksum fix-up; panics on received garbage in part (c) are C03's verdict and only counted here".into());
     rep.assumptions.push("trusted: the independent parser (egress/mon.rs), the RFC 1071 reference sum, the stimulus builders of the C03 harness".into());
